@@ -42,6 +42,9 @@ EXTERNAL_POSITIONAL = {
 }
 ESTIMATOR_ROOTS_EXTERNAL_PREFIX = ("sklearn.",)
 SKTIME_BASE = ("sktime.base._base", "BaseEstimator")
+# method names that modify the object they are called on (estimators, lists, dicts)
+MUTATORS = {"set_params", "fit", "fit_transform", "fit_predict", "partial_fit", "update", "append", "extend",
+            "insert", "pop", "remove", "clear", "sort", "reverse", "setdefault", "popitem", "__setitem__"}
 
 
 def repo_root():
@@ -386,6 +389,15 @@ class EventWalker:
                 for k in n.keywords:
                     self.expr(k.value, cond)
                 self.emit("self", cond, m=f.attr)
+                return
+            # self.<attr>.<mutator>(...): the object bound to the attribute is modified in place
+            if isinstance(f, ast.Attribute) and is_self_attr(f.value) and f.attr in MUTATORS:
+                self.expr(f, cond)
+                for a in n.args:
+                    self.expr(a.value if isinstance(a, ast.Starred) else a, cond)
+                for k in n.keywords:
+                    self.expr(k.value, cond)
+                self.emit("write", cond, a=f.value.attr)
                 return
             self.expr(f, cond)
             esc = False
